@@ -24,7 +24,7 @@ OPS = ["construct", "construct-empty", "construct-union", "copy-holder", "bind-o
        "write-through-ref", "write-through-original", "grow"]
 FLOORS = {"histories": 1500, "steps": 20000, "slot_resolutions": 100000, "growths": 1000, "alias_checks": 20000,
           "null_checks": 20000, "raw_null_union_checks": 3000, "live_extent_checks": 30000,
-          "empty_nd_reference_arrays": 300, "copy_same_buffer": 300, "copy_other_buffer": 300, "toplevel_union_get": 3000}
+          "empty_nd_reference_arrays": 300, "copy_same_buffer": 300, "copy_other_buffer": 300, "toplevel_union_get": 3000, "second_handle_resolutions": 50000}
 FLOORS.update({"op:" + o: 800 for o in OPS})
 FLOORS["op:bind-other-type"] = 150
 RULE = ("generated reference-bearing types (Ref and UnionRef as struct fields and as array items, referents that hold "
@@ -189,11 +189,25 @@ class Graph:
             if o.h is None:
                 continue
             raw = None
+            if o.t["k"] != "ur" and getattr(o, "h2", None) is None:
+                # a second Python object on the same memory, kept for the whole history: what was read through it
+                # before a re-binding made through the first handle must not be remembered
+                try:
+                    o.h2 = type(o.h)._from_buffer(o.h._buffer, o.h._offset)
+                except Exception:
+                    o.h2 = None
             for path, label, nt, nv in self.slots(o):
                 w.count("slot_resolutions")
                 try:
                     if path:
                         got = get_path(o.h, path)
+                        if getattr(o, "h2", None) is not None:
+                            got2 = get_path(o.h2, path)
+                            w.count("second_handle_resolutions")
+                            if (got is None) != (got2 is None) or (got is not None and
+                                                                 (int(got._offset) != int(got2._offset) or type(got) is not type(got2))):
+                                self.viol("second-handle-resolves-reference-differently",
+                                          f"#{o.i}{label}: first handle -> {got!r}, older second handle -> {got2!r}")
                     elif o.t["k"] == "ur":
                         got = o.h.get()  # a top-level union reference object
                         w.count("toplevel_union_get")
